@@ -373,6 +373,81 @@ fn drop_flush_case(st: &mut Stats, seed: u64) {
     }
 }
 
+/// The accept queue is full (the application is not accepting at the moment), the connection
+/// ends on an error path and more Connect frames are still readable: everything must still resolve.
+fn accept_queue_full_case(st: &mut Stats, seed: u64) {
+    use crate::endops::{self, Pending};
+    use crate::raw::Raw;
+    use crate::refcodec::RefFrame;
+    st.evaluations += 1;
+    st.engine("SIM", 1);
+    let mut rng = Rng64::new(mix(seed, 0xAF));
+    let n = rng.range(1, 3) as usize;
+    let garbage = rng.chance(1, 2);
+    let extra_connects = rng.range(1, 3) as u32;
+    let cfg = EpCfg { stream_buf: n, rwnd: 4, bind_buf: 4, ..EpCfg::default() };
+    let sh = sim::Shared::new(mix(seed, 11), rng.below(4) as u8);
+    let cause = if garbage { "invalid-frame" } else { "send-error" };
+    let end = sim::run(&sh, move |sh| async move {
+        let (w0, w1, net) = crate::memws::pair(&sh, [0, 0], [None, None], false);
+        let e0 = wl::endpoint(&sh, 0, &cfg, w0, seed);
+        let mut raw = Raw::new(w1);
+        // an established stream opened by the endpoint (peer window 1): a reader and a blocked writer exist
+        let m = e0.mux.clone();
+        let opener = sim::spawn(&sh, 5001, async move { m.new_stream_channel(b"o.", 1).await.ok() });
+        let m = e0.mux.clone();
+        let opener2 = sim::spawn(&sh, 5002, async move { m.new_stream_channel(b"o2.", 2).await.ok() });
+        for g in raw.drain().await {
+            if let crate::raw::Got::Frame(RefFrame::Connect { id, .. }) = g {
+                raw.send(&RefFrame::Ack { id, n: 1 }).await;
+            }
+        }
+        let reader = opener.await.ok().flatten().flatten();
+        let writer = opener2.await.ok().flatten().flatten();
+        // fill the accept queue exactly; the application does not accept
+        for i in 0..n as u32 {
+            raw.send(&RefFrame::Connect { id: 0x100 + i, rwnd: 8, port: 9, host: b"q.".to_vec() }).await;
+        }
+        raw.drain().await;
+        let pend = Pending::spawn_opt(&sh, &e0.mux, reader, writer, true, false);
+        crate::sim::quiesce().await;
+        if garbage {
+            raw.send_bytes(vec![0x7f, 9, 9, 9, 9, 9]).await;
+            for i in 0..extra_connects {
+                raw.send(&RefFrame::Connect { id: 0x200 + i, rwnd: 8, port: 9, host: b"late.".to_vec() }).await;
+            }
+        } else {
+            // the next message the endpoint tries to send fails; the read side stays usable
+            let k = crate::memws::sent_count(&net, 0);
+            crate::memws::arm_fault(&net, 0, FaultPlan { trigger: Trigger::SendIdx(k), kind: FaultKind::SendErrOnly });
+            for i in 0..=extra_connects {
+                raw.send(&RefFrame::Connect { id: 0x200 + i, rwnd: 8, port: 9, host: b"late.".to_vec() }).await;
+            }
+        }
+        let mut task = e0.task;
+        let returned = tokio::time::timeout(std::time::Duration::from_millis(5), &mut task).await.is_ok();
+        let outs = pend.collect().await;
+        drop(e0.mux);
+        (returned, outs)
+    });
+    let log = sh.take_log();
+    let replay = json!({"kind": "c08-accept-queue-full", "run_seed": seed, "queue": n, "cause": cause, "extra_connects": extra_connects, "trace_tail": sim::render(&log, 60)});
+    match end {
+        sim::RunEnd::Finished((returned, outs)) => {
+            st.target("accept_queue_full_runs", 1);
+            st.nontrivial(mix(sh.hash(), n as u64 * 8 + u64::from(garbage)));
+            if !returned {
+                st.violation(Violation { signature: format!("task-never-returned|accept-queue-full|{cause}"), detail: format!("the accept queue ({n}) was full, the connection ended ({cause}) with {extra_connects} more Connect frame(s) readable: the connection task had not returned when the system went idle"), replay: replay.clone() });
+            }
+            for (sig, detail) in endops::judge(&outs, cause, false) {
+                st.violation(Violation { signature: format!("{sig}|accept-queue-full"), detail, replay: replay.clone() });
+            }
+        }
+        sim::RunEnd::Stalled => st.violation(Violation { signature: format!("stall|accept-queue-full|{cause}"), detail: "the run stalled".into(), replay }),
+        sim::RunEnd::Panicked(m) => st.inconclusive.push(format!("harness panic in c08 accept-queue-full: {m}")),
+    }
+}
+
 pub fn run(p: &Params) -> (Stats, &'static str) {
     std::panic::set_hook(Box::new(|_| {}));
     sim::install_observer();
@@ -410,6 +485,14 @@ pub fn run(p: &Params) -> (Stats, &'static str) {
         if st.samples.len() < 2 {
             st.sample(json!({"base": streams::describe(&base), "messages_received": m_recv, "messages_sent": m_send, "cut_points_x_kinds": (m_recv + 1) * 6 + m_send * 2}));
         }
+        if st.too_many_violations() {
+            break;
+        }
+    }
+    // full accept queue at the moment the connection fails
+    let n_aq = p.share(if p.tier_thorough { 100_000 } else { 2_000 });
+    for i in 0..n_aq {
+        accept_queue_full_case(&mut st, mix(base_seed, 0xAF_0000 + i));
         if st.too_many_violations() {
             break;
         }
